@@ -58,7 +58,7 @@ ref::File buildFile(const std::vector<Op> &ops, FileInfo *info) {
         if (f.termStyle) I.tags.insert("term-offset-to-zero");
     }
     // ---- shape ----
-    size_t nP = 0, nC = 0, nSub = 0, nF = 0; unsigned first = 1; long long rateIdx = 7, pdelta = 0, adelta = 0; uint64_t vseed = 1;
+    size_t nP = 0, nC = 0, nSub = 0, nF = 0; unsigned first = 1; long long rateIdx = 7, pdelta = 0, adelta = 0, variant = 0; uint64_t vseed = 1;
     if (const Op *o = findOp(ops, "fshape")) {
         nP = static_cast<size_t>(clampll(o->arg(0), 0, 255));
         nC = static_cast<size_t>(clampll(o->arg(1), 0, 255));
@@ -67,12 +67,14 @@ ref::File buildFile(const std::vector<Op> &ops, FileInfo *info) {
         first = static_cast<unsigned>(clampll(o->arg(4, 1), 1, 65535));
         rateIdx = o->arg(5); pdelta = clampll(o->arg(6), -255, 255); adelta = clampll(o->arg(7), -255, 255);
         vseed = static_cast<uint64_t>(o->arg(8));
+        variant = o->arg(9);
     }
     if (emptyAnalog) { nC = 0; }
     if (nC > 0 && nSub == 0) nSub = 1;
     if (nC * nSub > 65535) nSub = 65535 / nC;
     if (nP == 0 && nC == 0) nF = 0;
-    else if (nF == 0) nF = 1;
+    else if (nF == 0 && variant != 2) nF = 1;
+    if (variant == 2 && (nP || nC)) { nF = 0; first = 1; I.tags.insert("template-file-no-frames"); }     // declared columns, no frame yet (what ezc3d itself saves for such an object): first 1, last 0
     if (static_cast<size_t>(first) + nF - 1 > 65535) first = static_cast<unsigned>(65535 - (nF ? nF - 1 : 0));
     if (first != 1) I.tags.insert("first-frame>1");
     I.nPoints = nP; I.nChannels = nC; I.nSub = nSub; I.nFrames = nF;
@@ -85,7 +87,7 @@ ref::File buildFile(const std::vector<Op> &ops, FileInfo *info) {
     const float prate = prateTmp;
     const float arate = prate * static_cast<float>(nSub);
     f.h.nPoints = static_cast<unsigned>(nP); f.h.nAnalogMeas = static_cast<unsigned>(nC * nSub);
-    f.h.first = first; f.h.last = nF ? static_cast<unsigned>(first + nF - 1) : first;
+    f.h.first = first; f.h.last = nF ? static_cast<unsigned>(first + nF - 1) : ((variant == 2 && (nP || nC)) ? 0 : first);
     f.h.nSub = static_cast<unsigned>(nSub); f.h.rate = floatToBits(prate);
     f.h.maxGap = 10;
     // ---- header extras ----
@@ -141,7 +143,8 @@ ref::File buildFile(const std::vector<Op> &ops, FileInfo *info) {
     params.push_back(pInt(pointId, "USED", static_cast<int>(nP), true));
     params.push_back(pFloat(pointId, "SCALE", 0xBF800000u, true));
     params.push_back(pFloat(pointId, "RATE", floatToBits(prate), true));
-    params.push_back(pInt(pointId, "DATA_START", 0, true));            // patched below
+    if (variant != 1) params.push_back(pInt(pointId, "DATA_START", 0, true));            // patched below
+    else I.tags.insert("no-POINT:DATA_START");
     params.push_back(pInt(pointId, "FRAMES", static_cast<int>(nF), true));
     params.push_back(pStrings(pointId, "LABELS", pl, vseed % 3 == 0 ? 16 : 0));
     params.push_back(pStrings(pointId, "DESCRIPTIONS", pdesc));
